@@ -30,7 +30,7 @@ NAMESETS = [
 ]
 QUANT = ["1 of", "any of", "all of"]
 PATTERNS = ["them", "sel*", "*_a", "s*l", "*", "_*", "a*c", "*b*"]
-BOUNDS = {"quick": dict(kA=3, kB=2, kC=2), "thorough": dict(kA=5, kB=2, kC=3)}
+BOUNDS = {"quick": dict(kA=3, kB=2, kC=2, kD=2), "thorough": dict(kA=4, kB=2, kC=2, kD=2, C_alphabet="full")}
 
 
 def bounds(tier):
@@ -186,7 +186,7 @@ def space(tier):
             yield "C", names, t
         red = [l for l in leaves if l[0] == "n" or l[1] != "any of"]
         red = [l for i, l in enumerate(red) if l[0] == "n" or l[2] in ("them", "sel*", "*_a", "_*", "*", "a*c")]
-        for t in T.trees_upto(b["kC"], red):
+        for t in T.trees_upto(b["kC"], leaves if b.get("C_alphabet") == "full" else red):
             if T.count_ops(t) >= 2:
                 yield "C", names, t
 
@@ -198,7 +198,7 @@ D_PATTERNS = ["them", "sel*", "*_a", "_*", "*"]
 def space_D(tier):
     """the SAME condition text parsed back-to-back against different detection-name sets (parse results are cached per text)"""
     leaves = [("n", "sel")] + [("s", q, p) for q in ("1 of", "all of") for p in D_PATTERNS]
-    for t in T.trees_upto(BOUNDS[tier]["kC"], leaves):
+    for t in T.trees_upto(BOUNDS[tier]["kD"], leaves):
         for names in D_NAMESETS:
             if all(l[0] == "n" or ref_selector_matches(l[2], names) for l in T.leaves_of(t)):
                 yield "D", names, t
